@@ -26,6 +26,13 @@ def generate(seed, tier):
                  (1e9, 0), (1e9 - 0.5, 0), (123456789.5, 0), (4.5e8, -9), (5e8, -9), (5.000000001e8, -9), (1.5e9, -9), (2.5e9, -9)]:
         t = nc.parse_dbl(nc.dbl_token(x))
         yield req((False, t[2], t[3]), s)
+    for x, sc in [(1999999999.96, 1), (1999999999.996, 2), (12999999999.9996, 3), (1999999999.6, 0), (999999999999999999.0, 0),
+                  (1.9999999999996e18, -6), (999999999.96, 1), (99999999999999.96, 1)]:
+        t = nc.parse_dbl(nc.dbl_token(x))
+        yield req((False, t[2], t[3]), sc)
+    for i in range(300 if tier == "quick" else 6000):
+        d, sc = nc.carry_ripple_case(r) if i % 2 == 0 else nc.nines_case(r)
+        yield req(d, sc)
     for i in range(n):
         d = nc.rand_double(r)
         neg, m, e = d
